@@ -284,6 +284,43 @@ def _gen_pattern(rng, depth):
         return '|'.join(seq(d) for _ in range(rng.choice([1, 1, 1, 2, 3])))
     return alt(depth)
 
+def _sample_match(rng, items):
+    """a string the parsed sequence (re._parser items) can match, chosen at random: structured
+    mostly-valid inputs for the generic matcher"""
+    from re import _constants as C
+    out = []
+    for op, av in items:
+        if op is C.LITERAL:
+            out.append(chr(av))
+        elif op is C.NOT_LITERAL:
+            out.append(rng.choice([c for c in 'ab01-.Z:' if ord(c) != av]))
+        elif op is C.ANY:
+            out.append(rng.choice('ab01-.Z:'))
+        elif op is C.IN:
+            neg = av and av[0][0] is C.NEGATE
+            its = [x for x in av if x[0] is not C.NEGATE]
+            def member(ch):
+                for o, a in its:
+                    if (o is C.LITERAL and ord(ch) == a) or (o is C.RANGE and a[0] <= ord(ch) <= a[1]) or \
+                            (o is C.CATEGORY and ch in '0123456789'):
+                        return True
+                return False
+            pool = [ch for ch in 'ab01-.Z:+T 9' if member(ch) != bool(neg)]
+            out.append(rng.choice(pool) if pool else 'a')
+        elif op is C.MAX_REPEAT:
+            lo, hi, sub = av
+            top = lo + 2 if hi is C.MAXREPEAT else min(hi, lo + 2)
+            for _ in range(rng.randint(lo, top)):
+                out.append(_sample_match(rng, sub))
+        elif op is C.SUBPATTERN:
+            out.append(_sample_match(rng, av[3]))
+        elif op is C.BRANCH:
+            out.append(_sample_match(rng, rng.choice(av[1])))
+        elif op is C.AT:
+            pass
+    return ''.join(out)
+
+
 def family_regex(check, tier):
     """(a) the generic matcher of C08/Regex.v against Python's re on generated patterns of the fragment
     and generated strings (this is the trusted part of the regex tie, sampled);
@@ -306,8 +343,20 @@ def family_regex(check, tier):
             term, groups = RX.to_coq(p, 0)
         except (TranslateError, re.error):
             continue
-        for _ in range(3):
-            s = ''.join(rng.choice('ab01-.Z:+T ') for _ in range(rng.randint(0, 8)))
+        tree = list(re._parser.parse(p, 0))
+        for k in range(3):
+            if k == 0:
+                s = ''.join(rng.choice('ab01-.Z:+T ') for _ in range(rng.randint(0, 8)))
+            else:
+                s = _sample_match(rng, tree)
+                r = rng.random()
+                if r < .3:
+                    s += ''.join(rng.choice('ab01-.Z:') for _ in range(rng.randint(1, 3)))
+                elif r < .45 and s:
+                    j = rng.randrange(len(s))
+                    s = s[:j] + rng.choice('ab01-.Z:') + s[j + 1:]
+                elif r < .55 and s:
+                    s = s[:rng.randrange(len(s))]
             mo = cp.match(s)
             nmatch += mo is not None
             cases.append(('(%s, %s, %s)' % (term, gtext(s), rx_want(mo, groups)),
@@ -349,3 +398,154 @@ def family_regex(check, tier):
         lib.correspond(check, 'regex_' + name, RX_IMPORTS, RX_TYPE, RX_OKB, cs, show=RX_SHOW)
     check.sample({'family': 'regex', 'generated pattern cases': len(cases), 'of which match': nmatch,
                   'spyne patterns': [p[0] for p in pats]})
+
+
+# ------------------------------------------------------------------ direct oracles asked for by the second review
+def oracle_fraction_in_lex(check, tier, observe, xsd_ok):
+    """every xs:dateTime / xs:time literal with 1..9 fraction digits that denotes a whole number of
+    microseconds (digits beyond the sixth are zeros), with Z / numeric offset / no zone, is read as
+    exactly that instant: '.5' is 500000 microseconds, '.003' is 3000"""
+    import datetime as D
+    from spyne.protocol import ProtocolBase
+    from spyne.protocol.soap import Soap11
+    from spyne.model.primitive import DateTime, Time
+    rng = check.rng
+    prots = (('base', ProtocolBase()), ('soap', Soap11()))
+    fracs = ['5', '05', '003', '0007', '00001', '000001', '5000000', '12345600', '123456000', '9', '99', '999', '9999', '99999',
+             '999999', '1', '10', '100', '250', '2500']
+    for k in range(1, 10):
+        for _ in range(2 if tier == 'quick' else 40):
+            head = ''.join(rng.choice('0123456789') for _ in range(min(k, 6)))
+            fracs.append(head + '0' * (k - len(head)))
+    zones = [('', None), ('Z', 0), ('+02:00', 120), ('-04:49', -289), ('+14:00', 840), ('-00:30', -30), ('+00:00', 0)]
+    for fr in fracs:
+        us = int((fr + '000000')[:6])
+        y, mo, d = rng.choice([(2020, 5, 17), (1, 1, 1), (9999, 12, 31), (2000, 2, 29)])
+        hh, mi, ss = rng.choice([(10, 20, 7), (0, 0, 0), (23, 59, 59), (12, 0, 44)])
+        for zt, zm in zones:
+            lit = '%04d-%02d-%02dT%02d:%02d:%02d.%s%s' % (y, mo, d, hh, mi, ss, fr, zt)
+            if not xsd_ok('dateTime', lit):
+                continue
+            want = D.datetime(y, mo, d, hh, mi, ss, us, None if zm is None else D.timezone(D.timedelta(minutes=zm)))
+            for nm, pr in prots:
+                o = observe(pr.from_unicode, DateTime, lit)
+                check.count(('fraclex', nm, lit))
+                ok = o[0] == 'ok' and o[1].replace(tzinfo=None) == want.replace(tzinfo=None) and \
+                    o[1].utcoffset() == want.utcoffset()
+                if not ok:
+                    check.fail('C08|DateTime|in_lex|fraction-digits', 'xs:dateTime literal %r read as %r, denotes %r'
+                               % (lit, o, want), {'type': 'DateTime', 'text': lit, 'protocol': nm})
+        lit = '%02d:%02d:%02d.%s' % (hh, mi, ss, fr)
+        if xsd_ok('time', lit):
+            o = observe(prots[0][1].from_unicode, Time, lit)
+            check.count(('fraclex', 'time', lit))
+            if o != ('ok', D.time(hh, mi, ss, us)):
+                check.fail('C08|Time|in_lex|fraction-digits', 'xs:time literal %r read as %r, denotes %r'
+                           % (lit, o, D.time(hh, mi, ss, us)), {'type': 'Time', 'text': lit})
+        for zt in ('Z', '+02:00'):
+            # a zone designator is legal in xs:time; Spyne's Time is naive: the fields must still be exact
+            lit2 = lit + zt
+            if xsd_ok('time', lit2):
+                o = observe(prots[0][1].from_unicode, Time, lit2)
+                check.count(('fraclex', 'time', lit2))
+                if o[0] != 'ok' or (o[1].hour, o[1].minute, o[1].second, o[1].microsecond) != (hh, mi, ss, us):
+                    check.fail('C08|Time|in_lex|fraction-digits', 'xs:time literal %r read as %r, its fields are %r'
+                               % (lit2, o, (hh, mi, ss, us)), {'type': 'Time', 'text': lit2})
+
+
+def oracle_custom_binary_encoding(check, tier, observe, xsd_ok):
+    """a ByteArray customised with its own encoding keeps it behind every protocol, whatever the
+    protocol's default binary encoding is: on write AND on read (a hex text whose length is a
+    multiple of four is also valid base64, so a reader that prefers the protocol's default returns
+    wrong bytes silently)"""
+    from lxml import etree
+    from spyne.protocol import ProtocolBase
+    from spyne.protocol.xml import XmlDocument
+    from spyne.protocol.soap import Soap11
+    from spyne.protocol.json import JsonDocument
+    from spyne.protocol.http import HttpRpc
+    from spyne.model.binary import ByteArray, BINARY_ENCODING_BASE64, BINARY_ENCODING_HEX, BINARY_ENCODING_URLSAFE_BASE64
+    rng = check.rng
+    base = ProtocolBase()
+    encs = {'base64': BINARY_ENCODING_BASE64, 'hex': BINARY_ENCODING_HEX, 'urlsafe_base64': BINARY_ENCODING_URLSAFE_BASE64}
+    prots = []
+    for name, mk in (('XmlDocument', XmlDocument), ('Soap11', Soap11), ('JsonDocument', JsonDocument), ('HttpRpc', HttpRpc)):
+        try:
+            prots.append((name, mk()))
+        except Exception:       # a protocol that cannot be built in this environment is not driven
+            continue
+    blobs = [b'\xfb\xff\xbf\x00', b'ab', b'abcd', b'\x00\x00', b'\xde\xad\xbe\xef', b'\xfb\xff', b'\xff' * 6, b'a', b'abc', b'',
+             b'\xfb\xf0\x3e\x3f', bytes(range(16))]
+    for _ in range(10 if tier == 'quick' else 300):
+        blobs.append(bytes(rng.randrange(256) for _ in range(rng.choice([1, 2, 3, 4, 6, 8, 10]))))
+    for ename, enc in encs.items():
+        T = ByteArray(encoding=ename)
+        for pname, pr in prots:
+            for b in blobs:
+                want = base.to_unicode(ByteArray, [b], enc)
+                check.count(('binenc', ename, pname, b))
+                w = observe(pr.to_unicode, T, [b], pr.binary_encoding)
+                if w != ('ok', want):
+                    check.fail('C08|ByteArray|custom-encoding|%s|write' % ename,
+                               'ByteArray(encoding=%r) behind %s (default %s): %r written %r, its own encoding gives %r'
+                               % (ename, pname, getattr(pr.binary_encoding, '__name__', pr.binary_encoding), b, w, want),
+                               {'encoding': ename, 'protocol': pname, 'bytes': list(b)})
+                    continue
+                if b == b'':
+                    continue
+                readers = [('from_unicode', lambda s: pr.from_unicode(T, s, pr.binary_encoding))]
+                if pname in ('XmlDocument', 'Soap11'):
+                    def via_element(s, pr=pr):
+                        el = etree.Element('v')
+                        el.text = s
+                        return pr.from_element(None, T, el)
+                    readers.append(('from_element', via_element))
+                for rn, rd in readers:
+                    r = observe(rd, want)
+                    if r[0] != 'ok' or b''.join(r[1]) != b:
+                        check.fail('C08|ByteArray|custom-encoding|%s|read' % ename,
+                                   'ByteArray(encoding=%r) behind %s (default %s): its text %r read by %s as %r, denotes %r'
+                                   % (ename, pname, getattr(pr.binary_encoding, '__name__', pr.binary_encoding), want, rn, r, b),
+                                   {'encoding': ename, 'protocol': pname, 'bytes': list(b), 'text': want})
+
+
+def oracle_plus_sign_integers(check, tier, observe, xsd_ok, int_types):
+    """XSD allows an explicit '+' on xs:integer and every derived type: such a literal, within the
+    value space, is read as its value under soft validation too, as element text and as attribute"""
+    from lxml import etree
+    from spyne.protocol.xml import XmlDocument
+    from spyne.model.primitive import number as P
+    from spyne.model.complex import ComplexModel, XmlAttribute
+    xml = XmlDocument(validator='soft')
+    for tn in int_types:
+        T = getattr(P, tn)
+        mb, xb = T.Attributes.min_bound, T.Attributes.max_bound
+        lo = 1 if tn == 'PositiveInteger' else (0 if tn == 'UnsignedInteger' else mb)
+        cands = [1, 5, 127]
+        if xb is not None:
+            cands += [xb, xb - 1]
+        else:
+            cands += [2147483647, 10 ** 30]
+        if lo is not None and lo <= 0:
+            cands.append(0)
+        C = type('C08Plus' + tn, (ComplexModel,), {'__namespace__': 'tns', 'a': XmlAttribute(T), 'e': T})
+        C.resolve_namespace(C, 'tns')
+        for n in cands:
+            if xb is not None and n > xb:
+                continue
+            lit = '+%d' % n
+            if not xsd_ok(T.__type_name__, lit):
+                continue
+            check.count(('plus', tn, n))
+            el = etree.Element('v')
+            el.text = lit
+            o = observe(xml.from_element, None, T, el)
+            if o != ('ok', n):
+                check.fail('C08|%s|in_lex|plus-sign|element' % tn, '%s: element text %r (a valid xs:%s) read as %r under soft validation'
+                           % (tn, lit, T.__type_name__, o), {'type': tn, 'text': lit, 'where': 'element'})
+            doc = etree.fromstring('<C08Plus%s xmlns="tns" a="%s"><e>%s</e></C08Plus%s>' % (tn, lit, lit, tn))
+            o = observe(xml.from_element, None, C, doc)
+            got = (o[1].a, o[1].e) if o[0] == 'ok' else o
+            if got != (n, n):
+                check.fail('C08|%s|in_lex|plus-sign|attribute' % tn, '%s: attribute / child element %r (a valid xs:%s) read as %r under soft validation'
+                           % (tn, lit, T.__type_name__, got), {'type': tn, 'text': lit, 'where': 'attribute'})
